@@ -183,6 +183,9 @@ StrExprs(t) ==
           \* map with a plain string key (one key, not a collection of characters) and with a tuple of strings
           [k |-> "map", e |-> s, ks |-> <<<<LitStr(p)>>, <<LitStr(<<97>>), LitStr(<<98>>)>>>>, vs |-> <<Dash, LitStr(<<110, 111>>)>>, d |-> <<>>],
           [k |-> "map", e |-> s, ks |-> <<<<LitStr(<<97, 98>>), LitStr(p)>>>>, vs |-> <<LitStr(p)>>, d |-> <<Dash>>],
+          \* the pattern as a constant EXPRESSION (concatenation of literals): still data, escaped like a literal
+          Fn2("str_starts_with", s, Fn2("add", LitStr(<<>>), LitStr(p))), Fn2("str_ends_with", s, Fn2("add", LitStr(p), LitStr(<<>>))),
+          Fn2("str_contains", s, Fn2("add", LitStr(<<>>), LitStr(p))),
           LitStr(p)>>))
     \o <<Fn1("str_upper", s), Fn1("str_lower", s), Fn1("str_strip", s), Fn3("str_slice", s, LitI(0), LitI(1)), Fn3("str_slice", s, LitI(1), LitI(5)),
          Fn3("str_slice", s, LitI(2), LitI(0)), Fn1("str_upper", Fn2("add", s, LitStr(<<97, 32>>))), Fn1("str_strip", Fn2("add", LitStr(<<32, 32>>), Fn2("add", s, LitStr(<<32>>))))>>
@@ -219,6 +222,9 @@ CastExprs(t) ==
       Cast(FnN("hmax", <<c("i"), c("f")>>), "str"), Cast(Fn2("mul", Case1D(Fn2("gt", c("i"), LitI(0)), c("i"), c("f")), LitI(2)), "str"),
       Fn1("dt_year", c("d")), Fn1("dt_month", c("d")), Fn1("dt_day", c("d")), Fn1("dt_year", c("dt")), Fn1("dt_month", c("dt")), Fn1("dt_day", c("dt")),
       Fn1("dt_hour", c("dt")), Fn1("dt_minute", c("dt")), Fn1("dt_second", c("dt")), Fn1("dt_year", Cast(c("d"), "datetime")),
+      \* differences of dates / datetimes (durations), also across the change of month, year and leap day, and with null
+      Fn2("sub", c("d"), LitD), Fn2("sub", LitD, c("d")), Fn2("sub", c("dt"), LitDt), Fn2("sub", Cast(c("d"), "datetime"), c("dt")),
+      Fn2("sub", c("d"), c("d")), Fn2("sub", Cast(c("dt"), "date"), c("d")), Fn2("sub", c("dt"), Cast(c("d"), "datetime")),
       \* constant operands (python literals)
       Cast(LitDt, "date"), Cast(LitD, "datetime"), Cast(Cast(LitDt, "date"), "str"), Cast(LitDt, "str"), Cast(LitD, "str"),
       Cast(LitB(TRUE), "int"), Cast([k |-> "lit", ty |-> "float", v |-> [n |-> -7, d |-> 2]], "int"),
